@@ -14,6 +14,7 @@ fn dispatch(id: &str, ctx: &Ctx) -> Option<Report> {
         "C01" => mon::c01::run(ctx),
         "C04" => mon::c04::run(ctx),
         "C05" => mon::c05::run(ctx),
+        "C20" => mon::c20::run(ctx),
         "C19" => mon::c19::run(ctx),
         "C16" => mon::c16::run(ctx),
         "C02" => mon::c02::run(ctx),
@@ -27,6 +28,7 @@ fn dispatch(id: &str, ctx: &Ctx) -> Option<Report> {
         "C06" => mon::c06::run(ctx),
         "C14" => mon::c14::run(ctx),
         "C07" => mon::c07::run(ctx),
+        "C10" => mon::c10::run(ctx),
         "C11" => mon::c11::run(ctx),
         "C15" => mon::c15::run(ctx),
         _ => return None,
@@ -35,6 +37,10 @@ fn dispatch(id: &str, ctx: &Ctx) -> Option<Report> {
 
 fn main() {
     let args: Vec<String> = std::env::args().collect();
+    if args.len() == 2 && args[1] == "version" {
+        println!("rsmv {}", env!("CARGO_PKG_VERSION"));
+        return;
+    }
     if args.len() < 3 || args[1] != "run" {
         eprintln!("usage: rsmv run <ID> [--thorough] [--seed N] [--shard i/n] [--scale f] [--mode m] [--replay file] --out file");
         std::process::exit(2);
